@@ -47,6 +47,12 @@ def gen(rng):
     gas = s["fluid"] != "water"
     choices = [w for w in REWRITES if not (gas and w in ("one_section", "shift_pressure"))]
     s["c09"] = {"rewrite": str(rng.choice(choices)), "seed": int(rng.integers(0, 2 ** 31)), "shift": float(rng.uniform(0.5, 3.0))}
+    if s["c09"]["rewrite"] == "split_series" and r < 0.65 and rng.random() < 0.6:
+        # given, non-uniform junction temperatures (hydraulics mode): a sectioned pipe interpolates them linearly along its
+        # internal nodes, exactly what the series of pipes with interpolated junction temperatures describes
+        t0 = s["junctions"][0]["tfluid_k"]
+        for j in s["junctions"]:
+            j["tfluid_k"] = float(np.clip(t0 + rng.uniform(-8, 45 if not gas else 30), 278.15, 363.15))
     return s
 
 
@@ -77,7 +83,7 @@ def rewrite(spec):
         ja, jb = s2["junctions"][p["from"]], s2["junctions"][p["to"]]
         nodes = [p["from"]]
         for k in range(1, n):
-            s2["junctions"].append({"pn_bar": ja["pn_bar"], "tfluid_k": ja["tfluid_k"],
+            s2["junctions"].append({"pn_bar": ja["pn_bar"], "tfluid_k": ja["tfluid_k"] + (jb["tfluid_k"] - ja["tfluid_k"]) * k / n,
                                     "height_m": ja["height_m"] + (jb["height_m"] - ja["height_m"]) * k / n,
                                     "in_service": True, "index": 10 ** 6 + k})
             nodes.append(len(s2["junctions"]) - 1)
